@@ -41,6 +41,10 @@ func NewSession(o SessionOpts) (*Session, error) {
 	t0 := time.Now()
 	s := &Session{Tier: o.Tier}
 	s.OutDir = filepath.Join("/verif/out", o.OutName)
+	if o.Tier == "thorough" {
+		// a thorough run may be under way while the quick check of the same property runs
+		s.OutDir += "-thorough"
+	}
 	os.RemoveAll(s.OutDir)
 	if err := os.MkdirAll(s.OutDir, 0o755); err != nil {
 		return nil, err
